@@ -599,3 +599,14 @@ Example C02_adjust_fitness_panics_on_survival_overflow :
 Proof.
   split; [vm_compute; reflexivity|]. exact (proj1 (proj2 (proj2 (survivors_ok_overflow_refuted ov_opts_survival eq_refl)))).
 Qed.
+
+(* ---------- tie of the quota loop to the source (main session) ---------- *)
+(* the floor-and-carry loop that the epoch model runs inside count_all is the translation of
+   Species.countOffspring, regenerated from neat/genetics/species.go on every run (gen/QuotaLoop.v);
+   an edit of that loop breaks this obligation of C02 as well *)
+From NeatModel Require QuotaLoop QuotaLoopAgree.
+Theorem C02_quota_loop_is_the_translated_source :
+  forall (orgs : list organism) (skim : float),
+    count_offspring orgs 0 skim = QuotaLoop.gen_count_offspring (map o_exp orgs) skim.
+Proof. exact QuotaLoopAgree.count_offspring_is_translated. Qed.
+Print Assumptions C02_quota_loop_is_the_translated_source.
